@@ -85,6 +85,8 @@ def check(prog, rep, tier):
     rep.rule('R19.b', 'flush on session change: connectionMade and connectionLost reset both RIBs on every path')
     rep.rule('R19.c', 'the RIB is touched only for a well-formed IPv4 UPDATE with RIB maintenance enabled; only BGP '
                       'methods write the RIB and version dictionaries')
+    rep.rule('R19.e', 'the Adj-RIB-In key is canonical: the IPv4 prefix decoder zeroes the bits beyond the prefix length, so the same '
+                      'route always yields the same key whatever the sender put there (rule shared with C09 R09.b)')
     rep.rule('R19.d', 'representation agreement: the family tests of the version updaters compare afi_safi with a '
                       'literal of the type their producer yields (the decoders for received updates, JSON arrays for '
                       'sent ones); a list never equals a tuple, so a mismatch makes the family branch dead')
@@ -239,6 +241,10 @@ def check(prog, rep, tier):
                             found='; '.join(probs[:2]), expected='version moves exactly when the table changes', key=key)
                 else:
                     rep.ok('R19.a', key, file=f.file, line=f.node.lineno, found='%d case(s)' % len(seen))
+
+    # ---------------------------------------------------------------- R19.e
+    from .c09 import mask_rule
+    mask_rule(prog, rep, 'R19.e')
 
     # ---------------------------------------------------------------- R19.d
     kinds = set()
